@@ -150,6 +150,24 @@ var totalFns = []totalFn{
 		p, err := rjson.HandleObjectValues(d, zeroObj, b)
 		return true, p, err
 	}},
+	{"StdLibCompatibleStringBytes(dst)", func(d []byte, b *rjson.Buffer) (bool, int, error) {
+		if len(d) <= 1<<12 {
+			for spare := 0; spare <= 5; spare++ {
+				dst := make([]byte, 2, 2+spare)
+				rjson.StdLibCompatibleStringBytes(d, dst)
+				rjson.UnescapeStringContent(d, make([]byte, 1, 1+spare))
+				rjson.ReadStringBytes(d, make([]byte, 3, 3+spare))
+			}
+		}
+		return false, 0, nil
+	}},
+	{"TokenType.String", func(d []byte, b *rjson.Buffer) (bool, int, error) {
+		if len(d) > 0 {
+			_ = rjson.TokenType(d[0]).String()
+			_ = rjson.TokenType(d[len(d)-1]).String()
+		}
+		return false, 0, nil
+	}},
 	{"StdLibCompatibleString", func(d []byte, b *rjson.Buffer) (bool, int, error) {
 		if len(d) <= 1<<16 {
 			rjson.StdLibCompatibleString(string(d))
